@@ -199,6 +199,18 @@ def prop_args(S, *, ops_unary=UNARY_TF, ops_binary=BINARY, paired_max=1, wide=Tr
                 add(arg(sh, (l,)))
             if atom_order_canonical((sh, l)):
                 add(arg(l, (sh,)))
+    # operand-negated shapes against the plain and the negated binary of the same operator, both directions, and ~(A o ~B) against
+    # literals: a rule that strips a negation from an operand instead of adding one (or the reverse) only shows on these
+    for o in ops_binary:
+        plain = [Operated(o, (A, B)), ~Operated(o, (A, B))]
+        negd = [~Operated(o, (A, ~B)), ~Operated(o, (~A, B)), Operated(o, (A, ~B)), Operated(o, (~A, B))]
+        for sh in negd:
+            for pl in plain:
+                add(arg(pl, (sh,)))
+                add(arg(sh, (pl,)))
+        for l in lits4:
+            add(arg(l, (negd[0],)))
+            add(arg(negd[0], (l,)))
     if wide:
         if wide == 'small':
             wp = [A, B, ~A, ~B] + [Operated(o, (A, B)) for o in (OR, MC, BC) if o in ops_binary]
